@@ -10,6 +10,7 @@ live and its session reference resolves; `Inv` (kept by every event, so true of
 every state reachable from the initial one) guarantees the latter.
 -/
 import Mqtt.Proofs.BrokerLifeWillKept
+import Mqtt.Proofs.BrokerRefineCor
 
 namespace Mqtt.Properties.C09
 open Mqtt.Iface.Broker Mqtt.Model.Broker Mqtt.Proofs.BrokerLife
@@ -294,5 +295,43 @@ example :
   refine ⟨by rfl, ?_, by decide⟩
   simp only [quiet, affectsWill, endsConn, sessRefOf, not_false_eq_true, true_and, and_true]
   decide
+
+/-! ### the refinement theorem, specialised: the will after any history -/
+
+open Mqtt.Proofs.BrokerRefine (okRun specRun liveSess willMsg endSpec) in
+open Mqtt.Spec.Broker (Accepts) in
+/-- **Refinement (Proofs/BrokerRefine.lean: `Broker_refines_spec`) for C09.**
+After any history admitted by `okRun` (see C01_refines_reference for the side
+condition; resumed sessions included), for a live connection `c`: DISCONNECT
+closes it and publishes nothing; any other end (`close`: peer close, keep-alive
+expiry, protocol error) is accepted by the reference broker's `endConn`, whose
+record `k` of the connection carries the will *of the CONNECT that opened this
+connection* - the model's session object agrees with it (`willFlag`, message
+object), whatever earlier connections of the same client declared -: with no
+will the close is the only output; with will `w` the outputs are the close and
+the fan-out of `w` in the state in which the connection's own subscriptions are
+gone, which the reference broker's `accept` of `w` accepts (by
+C01_refines_reference's reading of `Accepts`: one copy per matching subscription). -/
+theorem C09_refines_reference (es : List Ev) (hok : okRun {} es = true) (c : Nat)
+    (hl : (run {} es).1.alive c = true) :
+    (step (run {} es).1 (.packet c .disconnect)).2 = [.closed c] ∧
+    Accepts (Mqtt.Spec.Broker.step (specRun {} es).1 (.close c)).2 (step (run {} es).1 (.close c)).2 ∧
+    ∃ σ k, liveSess (run {} es).1 c = some σ ∧ Mqtt.Spec.Broker.getConn (specRun {} es).1 c = some k ∧
+      σ.willFlag = k.will.isSome ∧ σ.will = k.will.map willMsg ∧
+      (k.will = none → (step (run {} es).1 (.close c)).2 = [.closed c]) ∧
+      (∀ w, k.will = some w →
+        (step (run {} es).1 (.close c)).2 =
+          .closed c :: (onPublish (stopBase (run {} es).1 c σ) (willMsg w)).2.2.1 ∧
+        (Mqtt.Spec.Broker.step (specRun {} es).1 (.close c)).2 =
+          .closed c :: (Mqtt.Spec.Broker.accept (endSpec (specRun {} es).1 c k)
+            { qos := w.qos, retain := w.retain, topic := w.topic, payload := w.payload }).2) := by
+  have hR := Mqtt.Proofs.BrokerRefine.reach es hok
+  obtain ⟨r1, r2, r3⟩ := Mqtt.Proofs.BrokerRefine.reach_step es hok (.close c) rfl
+  obtain ⟨e1, _, σ, k, e3, e4, e5, e6, e7, e8⟩ := Mqtt.Proofs.BrokerRefine.end_refines hR c hl
+  refine ⟨e1, r2, σ, k, e3, e4, e5, e6, e7, ?_⟩
+  intro w hw
+  obtain ⟨a1, a2⟩ := e8 w hw
+  refine ⟨a1, ?_⟩
+  rw [r3]; exact a2
 
 end Mqtt.Properties.C09
